@@ -82,4 +82,30 @@ PROPS = {
         "trusted_base": COMMON_TB + ["handler skeletons and rotation in the reference storage are hand-modelled; tied by this stream"],
         "assumptions": [],
     },
+    "C19": {
+        "proof_module": "OidcModel.Proofs.C19",
+        "theorems": ["C19.c19_holds", "C19.c19_issuer_eq", "C19.c19_endpoints_routed", "C19.c19_grants_exact", "C19.exactCore_all",
+                     "C19.c19_pkce_honoured", "C19.c19_request_object_honoured", "C19.c19_issuer_validation", "C19.validateIssuer_iff",
+                     "C19.c19_issuer_rejections", "C19.c19_dynamic_issuer", "C19.c19_rp_rejects_foreign_issuer", "C19.discover_sound",
+                     "C19.const_table_ok", "C19.unsupportedGrantSites_audited"],
+        "cases": {"quick": 600, "thorough": 0},
+        "timeout": {"quick": 600, "thorough": 3000},
+        "rule": "(1) provider configurations: router (Provider/CreateRouter | RegisterLegacyServer(NewLegacyServer)) x the 5 boolean op.Config options x the 3 optional storage "
+                "capabilities (refstore.Caps: client credentials, token exchange, device) x endpoint profile (default | custom paths | absolute URLs | mixed per endpoint | "
+                "some disabled = nil, second router only; the Provider's own option-made set differs from the LegacyServer's) x 10 issuer strategies (static with/without "
+                "path / trailing slash / http+insecure, from host with 3 path spellings, from Forwarded header present / absent): the REAL provider is built, the discovery "
+                "document fetched, every advertised issuer-relative address requested, 8 grant types sent to the token endpoint by a client registered for all grants, one "
+                "authorization-code flow run (id_token iss) plus a right/wrong-verifier pair per advertised PKCE method, and an authorization request with a signed request "
+                "object sent. thorough: the whole finite product (23 040 providers); quick: a seeded sample of n of them out of a fixed half of the product. "
+                "(2) provider construction with 46 fixed + random issuer strings x insecure (url.Parse's answer is the oracle); (3) IssuerFromHost / IssuerFromForwardedOrHost "
+                "paths and the issuer produced for a request; (4) client.Discover against a server whose document carries the asked / a foreign / a near-miss issuer, with "
+                "and without well-known override, also non-200. non-trivial = not the modal class; distinct = class x input",
+        "trivial_class": r"issuer:rejected:ErrInvalidIssuerMissingHost",
+        "exhaustive": {"thorough": True},
+        "trusted_base": ["net/url.Parse, chi routing, httpforwarded parsing, go-jose and schema decoding are oracles / real code, not verified",
+                         "hand-written in the model (tied by this stream only): which functions the two routers plug together, the issuer interceptor (static / host / Forwarded), "
+                         "the withClient skeleton of the second router, request objects being processed iff RequestObjectSupported",
+                         "reference storage refstore as the meaning of a contract-fulfilling op.Storage with a given capability set"],
+        "assumptions": ["endpoint paths are literal chi patterns (no '{', '*')", "one provider per process for the theorems; two providers in one process are sampled by the stream"],
+    },
 }
